@@ -204,4 +204,16 @@ func (s *session) releaseBig() {
 		defer func() { recover() }()
 		s.b.S.RemoveBlobs(ctxbg, refs)
 	}()
+	// what a store that cannot remove (encrypt) left in its memory leaves
+	s.b.ReleaseMemory()
+	if s.px != nil {
+		for _, b := range s.px.builts {
+			b.ReleaseMemory()
+		}
+		if rs, ok := s.px.cache.(*rotStore); ok {
+			rs.mu.Lock()
+			rs.m = nil
+			rs.mu.Unlock()
+		}
+	}
 }
